@@ -11,6 +11,7 @@ Monitors (all on the real get_action of the 11 algorithms):
                     very get_action call (bandits: the `action_values` local read by a frame tap); ties accepted
   mask_fed_draw     the epsilon-random branch of DQN/CQN is fed the corner variate 0.0 (inside the support of
                     rand_like / uniform) for every allowed action
+  greedy_fed_draw   DQN at epsilon=0: the per-row "use the policy?" variate (Tensor.uniform_) is fed 0.0
   get_action_raises get_action raised on a C14 input (mask / infos / epsilon / training flag / noise) although the
                     same observation is accepted by a plain get_action(obs) call (differential: crashes caused by
                     the observation alone are C15's business and only counted as information)
@@ -345,6 +346,8 @@ class _Capture:
             try:
                 o = result[0] if isinstance(result, tuple) else result
                 self.out[_key] = o.detach().to("cpu").double().numpy().copy()
+            except CaseTimeout:
+                raise
             except Exception:  # never raise into the observed code
                 self.out[_key] = None
             return result
@@ -768,9 +771,73 @@ def _run_value_discrete(case, rec):
                             algo=algo, row=r, action=av, mask=M[r], epsilon=1.0,
                         )
                         break
+        # ---- DQN, epsilon = 0: the "use the policy?" variate of every row is fed 0.0 (inside uniform_'s support)
+        if algo == "DQN" and n >= 2:
+            obs = _sample_obs(osp, B, rng)
+            for j in range(2 if case["depth"] == 1 else 6):
+                M = None if j == 0 else np.stack([masks[(j * B + i) % len(masks)] for i in range(B)])
+                rec.hit("fed_draw_calls")
+                rec.hit("fed_uniform_calls:DQN")
+                try:
+                    with _FedZeroUniform(B):
+                        a = act(obs, 0.0, None if M is None else M.copy())
+                except Exception as e:
+                    cx.info_reject(e, "fed_draw_call_raised")
+                    continue
+                rows = _rows(a, B)
+                S = cap.out.get("actor")
+                if rows is None or S is None or not np.isfinite(S).all():
+                    continue
+                S = np.asarray(S).reshape(B, -1)
+                for r in range(B):
+                    allowed = np.ones(n, bool) if M is None else M[r] > 0
+                    av = int(rows[r, 0])
+                    if not (0 <= av < n) or not allowed[av]:
+                        continue
+                    rec.hit("fed_uniform_rows")
+                    if S[r, av] < S[r][allowed].max():
+                        rec.violate(
+                            "greedy_fed_draw",
+                            "random_action_at_epsilon_zero_when_draw_is_zero",
+                            "DQN._get_action",
+                            algo=algo, row=r, action=av, scores=S[r], mask=allowed.astype(int), epsilon=0.0,
+                        )
+                        break
     finally:
         cap.remove()
     rec.nontrivial = rec.counters.get("legal_rows", 0) > 0 and (cx.mixed_mask_rows > 0 or n == 1)
+
+
+class _FedZeroUniform:
+    """Feed 0.0 as the per-row exploration variate drawn with Tensor.uniform_() (shape (B,)); uniform_ samples from
+    [0, 1), so 0.0 is a possible draw.  Installed as a class attribute of torch.Tensor for the duration of one call."""
+
+    def __init__(self, B):
+        self.B = B
+
+    def __enter__(self):
+        import torch
+
+        orig = torch.Tensor.uniform_
+        B = self.B
+
+        def fed(t, *a, **k):
+            r = orig(t, *a, **k)
+            if tuple(r.shape) == (B,):
+                r.zero_()
+            return r
+
+        torch.Tensor.uniform_ = fed
+        return self
+
+    def __exit__(self, *exc):
+        import torch
+
+        try:
+            del torch.Tensor.uniform_  # the inherited C implementation becomes visible again
+        except AttributeError:
+            pass
+        return False
 
 
 class _FedZeroDraws:
